@@ -181,6 +181,8 @@ class InterpreterBase:
             self.evaluate_codeblock(self.ast, start=1)
         except SubdirDoneRequest:
             pass
+        except (ContinueRequest, BreakRequest):
+            raise InvalidCode('"continue" and "break" can only be used inside a foreach loop.')
 
     def evaluate_codeblock(self, node: mparser.CodeBlockNode, start: int = 0, end: T.Optional[int] = None) -> None:
         if node is None:
